@@ -107,28 +107,54 @@ func ruleCoherentStep(c *Ctx, rule string) {
 	} else {
 		ob.Bad(fmt.Sprintf("currentMatch <- %v; currentFileOffset <- %v; expected currentMatch + v and currentFileOffset + len(v) for one and the same v = %s (READ returns \"\" at end of input, so advancing by the requested amount is wrong)", stores["currentMatch"], stores["currentFileOffset"], V))
 	}
-	ob2 := r.Ob(rule, "CONSUME updates line and column from every rune of what it read", c.pos(fn.Pos()))
-	okR := rng != nil && exprStr(rng.X) == V
-	okL := false
-	for _, s := range stores["currentLineNum"] {
-		if s == "(es.currentLineNum + 1)" {
-			okL = true
-		}
-	}
-	okC := contains(stores["currentColumnNum"], "(es.currentColumnNum + 1)") && contains(stores["currentColumnNum"], "1")
-	nl := false
+	ob2 := r.Ob(rule, "CONSUME derives the line and column updates from the text it read", c.pos(fn.Pos()))
+	// every value stored to the line/column counters must be data-dependent on v (or be the constant that restarts the column)
+	var readCall ssa.Value
 	instrsOf(fn, func(in ssa.Instruction) {
-		if iff, ok := in.(*ssa.If); ok {
-			s := exprStr(iff.Cond)
-			if strings.Contains(s, "== 10") {
-				nl = true
-			}
+		if call, ok := in.(*ssa.Call); ok && exprStr(call) == V {
+			readCall = call
 		}
 	})
-	if okR && okL && okC && nl {
-		ob2.OKnt("range over v: column += 1 per rune; on '\\n' line += 1 and column = 1")
+	if readCall == nil {
+		ob2.Bad("CONSUME does not call " + V)
+		return
+	}
+	deps := dataDeps(fn, map[ssa.Value]bool{readCall: true})
+	cds := NewPostDom(fn).ControlDeps()
+	var bad []string
+	n := 0
+	instrsOf(fn, func(in ssa.Instruction) {
+		st, ok := in.(*ssa.Store)
+		if !ok {
+			return
+		}
+		fa, ok := st.Addr.(*ssa.FieldAddr)
+		if !ok {
+			return
+		}
+		f := fieldName(deref(fa.X.Type()), fa.Field)
+		if f != "currentLineNum" && f != "currentColumnNum" {
+			return
+		}
+		n++
+		if deps[st.Val] {
+			return
+		}
+		// not data-dependent: then the store must be controlled by a condition that is (e.g. inside the range over v)
+		for _, l := range condsOf(cds, st.Block()) {
+			if deps[l.Cond] {
+				return
+			}
+		}
+		bad = append(bad, fmt.Sprintf("%s <- %s [%s]", f, exprStr(st.Val), c.pos(st.Pos())))
+	})
+	_ = rng
+	if n < 2 {
+		ob2.Bad("CONSUME does not update both the line and the column counter")
+	} else if len(bad) > 0 {
+		ob2.Bad("line/column are updated independently of the consumed text: " + strings.Join(bad, "; "))
 	} else {
-		ob2.Bad(fmt.Sprintf("expected a range over %s with column += 1 per rune and, on '\\n', line += 1 and column = 1; found range=%t line=%v column=%v newline-test=%t", V, okR, stores["currentLineNum"], stores["currentColumnNum"], nl))
+		ob2.OKnt(fmt.Sprintf("%d stores to the line/column counters, each data- or control-dependent on v = %s", n, V))
 	}
 }
 
